@@ -124,7 +124,7 @@ def gen(streams, tier, i):
             mm = m.copy()
             if mm.add_text(t) in ("ok", "merged"):
                 m.add_text(t)
-                ops.append({"op": "add", "line": t, "as": hr.choice(["str", "obj"])})
+                ops.append({"op": "add", "line": t, "as": hr.choice(["str", "obj"]), "readd": 1})
         else:
             sh = hist.Shadow(version, m.render())
             sh.reserved = set(m.all_mentions())
@@ -145,6 +145,8 @@ def model_apply(m, op, st):
     if k in ("new", "flush"):
         return "ok"
     if k == "add":
+        if op.get("readd"):
+            st.count("probe.readd_removed")
         pre_dangling = m.dangling()
         res = m.add_text(op["line"])
         if res == "merged":
@@ -162,6 +164,12 @@ def model_apply(m, op, st):
         removed, unm = m.cascade([rec])
         if len(removed) >= 3:
             st.count("probe.cascade_ge3")
+        tname = m.name_of(rec)
+        for q in removed:
+            # a record removed although it does not mention the target itself: second level of the cascade
+            if q is not rec and not (rec.rt == "L" and q.rt == "P") and (tname is None or tname not in m.mentions(q)):
+                st.count("probe.cascade_transitive")
+                break
         if unm:
             st.count("probe.gap_unmention")
         m.remove([rec])
